@@ -49,6 +49,8 @@ def floors(tier):
 
 def cases(tier, seed):
     yield {"canary": "agg-dict-order"}
+    for name in PAIR_TARGETS:
+        yield {"pair": name}
     for i in range(CONFIG[tier]["batches"]):
         yield {"batch": i, "seed": seed}
 
@@ -87,6 +89,8 @@ def observe(coll):
 def run_case(case):
     if case.get("canary") == "agg-dict-order":
         return run_canary()
+    if "pair" in case:
+        return run_pair(case["pair"])
     conf = CONFIG[TIER["t"]]
     scratch = os.environ.get("VMON_SCRATCH", "/tmp")
     counters, sets = {}, {"expr_classes": set(), "mutation_kinds": set()}
@@ -365,6 +369,125 @@ def mutant_check(item, built, root_name, limit, bump, sets):
                 continue
         return {"oracle": "mutant_alias", "symptom": "mutant-shares-name", "kind": kind, "path": path, "pandas_diff": d, "mech": kind}
     return None
+
+
+PAIR_TARGETS = ["from_graph_same_keys", "persist_from_map_rewritten_file", "persist_impure_from_map", "from_pandas_values", "map_partitions_closure", "from_array_values",
+                "from_dict_values", "from_delayed_impure", "from_map_args", "assign_user_array", "isin_values", "map_dict_values", "read_csv_rewritten", "read_parquet_rewritten"]
+
+
+def _pair_builders():
+    """name -> builder returning (q1, q2): two collections over DIFFERENT data (or operations) that therefore must not share a name;
+    both stay alive, so a shared name makes the second one the first object (Expr.__new__ dedupe) and return its data."""
+    import tempfile
+
+    import dask_expr as dx
+
+    scratch = os.environ.get("VMON_SCRATCH") or tempfile.gettempdir()
+    p1 = pd.DataFrame({"x": np.arange(10), "y": np.arange(10) * 1.5})
+    p2 = pd.DataFrame({"x": np.arange(10) + 100, "y": np.arange(10) * 2.5})
+    out = {}
+
+    def from_graph():
+        def mk(p):
+            layer = {("userkey", 0): p.iloc[:5], ("userkey", 1): p.iloc[5:]}
+            return dx.from_graph(layer, p.iloc[:0], (None, None, None), [("userkey", 0), ("userkey", 1)], "from-graph")
+        return mk(p1), mk(p2)
+
+    out["from_graph_same_keys"] = from_graph
+
+    def persist_rewritten():
+        path = os.path.join(scratch, f"c08-pair-{os.getpid()}.csv")
+        p1.to_csv(path, index=False)
+        a = dx.from_map(pd.read_csv, [path]).persist(scheduler="sync")
+        p2.to_csv(path, index=False)
+        b = dx.from_map(pd.read_csv, [path]).persist(scheduler="sync")
+        return a, b
+
+    out["persist_from_map_rewritten_file"] = persist_rewritten
+
+    def persist_impure():
+        state = {"n": 0}
+
+        def f(i):
+            state["n"] += 1
+            return (p1 if state["n"] <= 2 else p2).iloc[i * 5:(i + 1) * 5]
+        a = dx.from_map(f, [0, 1], meta=p1.iloc[:0]).persist(scheduler="sync")
+        b = dx.from_map(f, [0, 1], meta=p1.iloc[:0]).persist(scheduler="sync")
+        return a, b
+
+    out["persist_impure_from_map"] = persist_impure
+    out["from_pandas_values"] = lambda: (dx.from_pandas(p1, npartitions=2), dx.from_pandas(p2, npartitions=2))
+    out["map_partitions_closure"] = lambda: (lambda d: ((lambda k: d.map_partitions(lambda x: x + k))(1), (lambda k: d.map_partitions(lambda x: x + k))(2)))(dx.from_pandas(p1, npartitions=2))
+    out["from_array_values"] = lambda: (dx.from_array(p1.to_numpy(), chunksize=5, columns=["x", "y"]), dx.from_array(p2.to_numpy(), chunksize=5, columns=["x", "y"]))
+    out["from_dict_values"] = lambda: (dx.from_dict(p1.to_dict("list"), npartitions=2), dx.from_dict(p2.to_dict("list"), npartitions=2))
+
+    def from_delayed():
+        import dask
+
+        return (dx.from_delayed([dask.delayed(p1.iloc[:5]), dask.delayed(p1.iloc[5:])], meta=p1.iloc[:0]),
+                dx.from_delayed([dask.delayed(p2.iloc[:5]), dask.delayed(p2.iloc[5:])], meta=p1.iloc[:0]))
+
+    out["from_delayed_impure"] = from_delayed
+    out["from_map_args"] = lambda: (dx.from_map(lambda i, off=0: p1.iloc[i * 5:(i + 1) * 5] + off, [0, 1], off=0), dx.from_map(lambda i, off=0: p1.iloc[i * 5:(i + 1) * 5] + off, [0, 1], off=100))
+    out["assign_user_array"] = lambda: (lambda d: (d.assign(z=dx.from_pandas(pd.Series(np.arange(10)), npartitions=2)), d.assign(z=dx.from_pandas(pd.Series(np.arange(10) + 100), npartitions=2))))(dx.from_pandas(p1, npartitions=2))
+    out["isin_values"] = lambda: (lambda d: (d[d.x.isin([1, 2, 3])], d[d.x.isin([1, 2, 4])]))(dx.from_pandas(p1, npartitions=2))
+    out["map_dict_values"] = lambda: (lambda d: (d.x.map({1: 10, 2: 20}, meta=("x", "f8")), d.x.map({1: 10, 2: 30}, meta=("x", "f8"))))(dx.from_pandas(p1, npartitions=2))
+
+    def csv_rewritten():
+        path = os.path.join(scratch, f"c08-pair-rc-{os.getpid()}.csv")
+        p1.to_csv(path, index=False)
+        a = dx.read_csv(path)
+        p2.iloc[:7].to_csv(path, index=False)
+        os.utime(path, (1, 1))
+        b = dx.read_csv(path)
+        return a, b
+
+    out["read_csv_rewritten"] = csv_rewritten
+
+    def pq_rewritten():
+        import shutil
+
+        path = os.path.join(scratch, f"c08-pair-pq-{os.getpid()}")
+        shutil.rmtree(path, ignore_errors=True)
+        dx.from_pandas(p1, npartitions=2).to_parquet(path)
+        a = dx.read_parquet(path, filesystem="arrow")
+        shutil.rmtree(path)
+        dx.from_pandas(p2, npartitions=2).to_parquet(path)
+        b = dx.read_parquet(path, filesystem="arrow")
+        return a, b
+
+    out["read_parquet_rewritten"] = pq_rewritten
+    return out
+
+
+def run_pair(name):
+    """Two live collections over different data: equal names are only benign if both really return the same rows."""
+    rec = {"status": "ok", "counters": {"distinct_pairs_checked": 1}, "nt": [f"pair:{name}"]}
+    try:
+        a, b = _pair_builders()[name]()
+    except Exception as ex:
+        return {"status": "refused", "counters": {"build_refused": 1}, "sets": {"pair_refusals": [f"{name}:{type(ex).__name__}:{str(ex)[:60]}"]}}
+    na, nb = a.expr._name, b.expr._name
+    shared = {x._name for x in a.expr.walk()} & {x._name for x in b.expr.walk()}
+    try:
+        ra = a.compute(scheduler="sync")
+        rb = b.compute(scheduler="sync")
+    except Exception as ex:
+        return {"status": "undecided", "counters": {"pair_compute_raises": 1}, "sets": {"pair_refusals": [f"{name}:{type(ex).__name__}:{str(ex)[:60]}"]}}
+    same_result = compare(ra, rb, order=True, index=True, dtypes=True, exact=True) is None
+    if na == nb and not same_result:
+        # cannot happen unless the two objects are distinct yet equally named
+        rec["status"] = "violation"
+        rec["viol"] = {"oracle": "mutant_alias", "symptom": "different-data-shares-name", "kind": name, "mech": name, "src": [f"pair:{name}"], "ops": [name]}
+        rec["case"] = {"pair": name}
+    elif na == nb or (a.expr is b.expr):
+        # equal names and equal results although the inputs differ: the second collection IS the first (dedupe) - its own data is lost
+        rec["status"] = "violation"
+        rec["viol"] = {"oracle": "mutant_alias", "symptom": "different-data-shares-name", "kind": name, "mech": name, "src": [f"pair:{name}"], "ops": [name],
+                       "detail": "second collection returns the first one's data"}
+        rec["case"] = {"pair": name}
+    rec["counters"]["pair_shared_subexpressions"] = len(shared)
+    return rec
 
 
 def run_canary():
